@@ -202,6 +202,20 @@ def rule_r3(ctx) -> List[R.Inst]:
         for c, sts, ex in _branch_paths([p for p in pre if not isinstance(p, (ast.For, ast.While))]):
             if ex != "fall":
                 skipped = (loop_, c, ex)
+    # the slot cursor is initialised once per source time: all volume groups of that time share the target's notes
+    inits = [n for n in ast.walk(fn.node) if isinstance(n, ast.Assign) and isinstance(n.targets[0], ast.Name) and
+             n.targets[0].id == "slot" and isinstance(n.value, ast.Constant) and n.value.value == 0]
+    if outer is not None and len(inits) == 1:
+        direct = any(st is inits[0] for st in outer.body)
+        if direct:
+            insts.append(R.ok(rid, "slot-cursor", file, inits[0].lineno, idiom="slot = 0 once per source time"))
+        else:
+            insts.append(R.viol(rid, "slot-cursor", file, inits[0].lineno,
+                                "the slot cursor is reset inside an inner loop: the second volume group of a time starts again at the "
+                                "first target note and overwrites what the first group placed (sounds the target could hold are lost)",
+                                construct="slot = 0 inside the per-volume / per-sample loop"))
+    else:
+        insts.append(R.undec(rid, "slot-cursor", file, fn.node.lineno, f"{len(inits)} initialisations of the slot cursor found"))
     if skipped:
         loop_, c, ex = skipped
         ctxt = " and ".join(("" if pol else "not ") + f"({unparse(t)})" for t, pol in c) or "always"
@@ -412,7 +426,7 @@ def rule_r5(ctx) -> List[R.Inst]:
 SPECS = [
     RuleSpec("C18.R1", rule_r1, 3, "A3", "both inputs untouched; result rooted in a deep copy"),
     RuleSpec("C18.R2", rule_r2, 5, "A2", "result frame = target's notes; only sound columns stored; rows kept; unique labels; split back"),
-    RuleSpec("C18.R3", rule_r3, 4, "A8", "every named sample reaches exactly one sink on every path, with no early exit"),
+    RuleSpec("C18.R3", rule_r3, 5, "A8", "every named sample reaches exactly one sink on every path, with no early exit"),
     RuleSpec("C18.R4", rule_r4, 5, "A2", "sound columns of the result are cleared before slotting"),
     RuleSpec("C18.R6", rule_r6, 1, "A1", "source and target times are matched as stored (no one-sided transform)"),
     RuleSpec("C18.R5", rule_r5, 3, "A2", "bit tests on sound columns act on integer data for every history of the chart"),
